@@ -121,23 +121,23 @@ StartAdd(h, parts, op) ==
   /\ Room
   /\ LET marks == IF op = "empty" THEN {} ELSE {nextTxn * 10 + k : k \in 0..(parts - 1)} IN
      Start(h, op, [L0 EXCEPT !.op = op, !.txn = nextTxn, !.parts = parts], "a_lock",
-           [op |-> op, txn |-> nextTxn, marks |-> marks])
+           [op |-> op, txn |-> nextTxn, marks |-> marks, norecs |-> (op = "empty")])
   /\ nextTxn' = nextTxn + 1 /\ UNCHANGED nextId
 
 StartCompact(h, f, l, op) ==
   /\ Room
   /\ 1 <= f /\ f < l /\ l <= Len(stack[h])
   /\ op = "compactrange" /\ ~(f = 1 /\ l = Len(stack[h]))
-  /\ Start(h, op, [L0 EXCEPT !.op = op, !.first = f, !.last = l], "k_lock", [op |-> op, txn |-> 0, marks |-> {}])
+  /\ Start(h, op, [L0 EXCEPT !.op = op, !.first = f, !.last = l], "k_lock", [op |-> op, txn |-> 0, marks |-> {}, norecs |-> FALSE])
   /\ UNCHANGED <<nextId, nextTxn>>
 
 StartCompactAll(h) ==     \* CompactAll = compactRange(0, len - 1); spelled out (not via StartCompact) so that TLC labels the transition with h
   /\ Room /\ Len(stack[h]) >= 2
-  /\ Start(h, "compactall", [L0 EXCEPT !.op = "compactall", !.first = 1, !.last = Len(stack[h])], "k_lock", [op |-> "compactall", txn |-> 0, marks |-> {}])
+  /\ Start(h, "compactall", [L0 EXCEPT !.op = "compactall", !.first = 1, !.last = Len(stack[h])], "k_lock", [op |-> "compactall", txn |-> 0, marks |-> {}, norecs |-> FALSE])
   /\ UNCHANGED <<nextId, nextTxn>>
 
 StartOther(h, op, firstpc, l) ==
-  /\ Start(h, op, l, firstpc, [op |-> op, txn |-> 0, marks |-> {}])
+  /\ Start(h, op, l, firstpc, [op |-> op, txn |-> 0, marks |-> {}, norecs |-> FALSE])
   /\ UNCHANGED <<nextId, nextTxn>>
 
 Calls(h) ==
